@@ -1162,6 +1162,31 @@ func (r *Runner) evalCrash(op int, c *collector, j int, cut int64, s snapshot, b
 	}
 	line.Add(accepted...)
 	l.Close()
+	if ok {
+		// recovery must leave a sound log behind: reopen once more (after the probe appends) and compare
+		want := append([]obsRec(nil), recs...)
+		for i, id := range []int64{probeBase, probeBase + 2, probeBase + 1} {
+			if accepted[i] == 1 {
+				want = append(want, obsRec{ID: id, Data: []byte{0xA5}})
+			}
+		}
+		l2, err2 := r.openFS(r.evalDir)
+		if err2 != nil {
+			r.report("crash-second-reopen-fails-"+tag, "after crash recovery and further appends, the log cannot be reopened again",
+				detail(map[string]interface{}{"err": err2.Error()}))
+		} else {
+			e2, r2 := iterate(l2, 0)
+			same := e2 == 0 && len(r2) == len(want)
+			for i := 0; same && i < len(want); i++ {
+				same = r2[i].ID == want[i].ID && bytes.Equal(r2[i].Data, want[i].Data)
+			}
+			if !same {
+				r.report("crash-second-reopen-differs-"+tag, "after crash recovery and further appends, a second reopen does not return the same records",
+					detail(map[string]interface{}{"err": e2, "got": len(r2), "want": len(want)}))
+			}
+			l2.Close()
+		}
+	}
 	if onWire && r.wire() {
 		r.tr.Op(OpCrash, int64(j), cut)
 		r.tr.Obs(line...)
